@@ -88,9 +88,6 @@ fn exec(b: &mut SendBuf, op: &Op) -> Option<Obs> {
         }
         3 | 4 => {
             let (s, e) = (op.u(0), op.u(1));
-            if e < s {
-                return None;
-            }
             if op.tag == 3 {
                 b.on_data_acked(&(s..e));
             } else {
